@@ -170,7 +170,17 @@ fn shapes_for(n: usize, quick: bool) -> Vec<Shape> {
             v.push(Shape::Blocks(sz));
         }
     }
-    let ks: Vec<usize> = if n <= 9 || !quick { (0..=n).collect() } else { vec![0, 1, 2, 3, 4, 5, 7, 8, 9, n - 1, n] };
+    // split points: all of them up to n = 9 (quick) / 40 (thorough); above that the ones around the powers of two
+    let mut ks: Vec<usize> = if n <= 9 || (!quick && n <= 40) {
+        (0..=n).collect()
+    } else if quick {
+        vec![0, 1, 2, 3, 4, 5, 7, 8, 9, n - 1, n]
+    } else {
+        vec![0, 1, 2, 3, 4, 5, 7, 8, 9, 15, 16, 17, 31, 32, 33, 63, 64, 65, 127, 128, 129, n / 2, n - 1, n]
+    };
+    ks.retain(|&k| k <= n);
+    ks.sort();
+    ks.dedup();
     for k in ks {
         v.push(Shape::TwoPhase(k));
         if k >= 1 && k < n {
